@@ -546,9 +546,16 @@ def mask_select(I, s, mask):
              to_int(mask.length) == to_int(s.length), "safety")
     n = to_int(s.length)
     nm = I.namer.fresh
+    # the selection maps are a function of the mask only: arrays selected by
+    # the same mask object share them (x[m], y[m] stay aligned)
+    mcache = I.ghost.setdefault("mask_cache", {})
+    if id(mask) in mcache:
+        src, dst, cnt = mcache[id(mask)][:3]
+        return SymSeq(cnt, lambda q: s.get(src(to_int(q))), s.elem)
     cnt = I.fresh_const("mask_count", z3.IntSort())
     src = z3.Function(nm("mask_src"), z3.IntSort(), z3.IntSort())
     dst = z3.Function(nm("mask_dst"), z3.IntSort(), z3.IntSort())
+    mcache[id(mask)] = (src, dst, cnt, mask)
     I.assume(z3.And(0 <= cnt, cnt <= n))
     i = z3.Int(nm("q_i"))
     i2 = z3.Int(nm("q_i2"))
@@ -1403,6 +1410,9 @@ def _isinstance(I, x, t):
             names.add(q.name.split(".")[-1])
         elif isinstance(q, E.ClassRef):
             names.add(q.name)
+        elif isinstance(q, E.ModuleRef) and q.name in (
+                "numpy.ndarray", "torch.Tensor"):
+            names.add(q.name.split(".")[-1])
         else:
             raise Unsupported(f"isinstance with {q!r}")
     x0 = x
@@ -1428,6 +1438,10 @@ def _isinstance(I, x, t):
         return False
     if isinstance(x, Cell) and x.kind == "arr":
         return "ndarray" in names
+    if isinstance(x, SymSeq) and names <= {"ndarray", "Tensor"}:
+        # an abstract array: may be either a numpy array or a tensor;
+        # both cases are explored
+        return I.fresh_const("is_" + "_".join(sorted(names)), z3.BoolSort())
     if isinstance(x, Cell) and x.kind == "list":
         return "list" in names
     if is_z3(x):
@@ -2601,8 +2615,14 @@ def sum_term(I, lo, hi, body):
     lo_, hi_ = to_int(lo), to_int(hi)
     # only the values for lo <= k < hi matter: normalise the summand under
     # that range (any representative denotes the same finite sum)
-    b = I.ctx_simplify(z3.And(lo_ <= k, k < hi_), to_real(body(k)))
-    lam = z3.Lambda([k], b)
+    b = I.ctx_simplify(z3.And(lo_ <= k, k < hi_), to_real(body(k)),
+                       force=True)
+    # canonical bound name: syntactically equal summands give the *same*
+    # SUMA term (hash-consing), so no congruence lemma is needed for them.
+    # The constant is only used transiently here and is abstracted at once,
+    # so it can never occur free in a formula.
+    kc = z3.Int("s_k!c")
+    lam = z3.Lambda([kc], z3.substitute(b, (k, kc)))
     return SUMA(lam, lo_, hi_)
 
 
@@ -3176,3 +3196,63 @@ def _spec_deriv(I, t, x):
         # not known from the expression (only from the closed-form clauses)
         return I.fresh_const("unknown_derivative", z3.RealSort())
     return z3.simplify(deriv(t, to_real(x)))
+
+
+# =====================================================================
+# C08: abstract normalising flow.  A glasflow Transform in eval mode is a
+# row-wise bijection pair (Tf, Dj), (Ti, Di) with Ti.Tf = id, Tf.Ti = id and
+# Di(Tf x) = -Dj(x); a Distribution has log_prob = Bz and
+# sample_and_log_prob = (z, Bz z).  ASSUMED of the external library (listed
+# in the evidence); the nessai wrappers are verified against it.
+# =====================================================================
+XS_ = usort("X")
+ZS_ = usort("Zs")
+FL_TF = z3.Function("Tf", XS_, ZS_)
+FL_DJ = z3.Function("Dj", XS_, z3.RealSort())
+FL_TI = z3.Function("Ti", ZS_, XS_)
+FL_DI = z3.Function("Di", ZS_, z3.RealSort())
+FL_BZ = z3.Function("Bz", ZS_, z3.RealSort())
+FL_ALT = z3.Function("AltB", ZS_, z3.RealSort())
+
+
+def _flow_axioms():
+    x = z3.Const("x!fl", XS_)
+    z = z3.Const("z!fl", ZS_)
+    return [
+        z3.ForAll([x], z3.And(FL_TI(FL_TF(x)) == x,
+                              FL_DI(FL_TF(x)) == -FL_DJ(x)),
+                  patterns=[FL_TF(x)]),
+        z3.ForAll([z], z3.And(FL_TF(FL_TI(z)) == z,
+                              FL_DJ(FL_TI(z)) == -FL_DI(z)),
+                  patterns=[FL_TI(z)]),
+    ]
+
+
+_BG.extend(_flow_axioms())
+
+for _nm, _fn in (("Tf", FL_TF), ("Dj", FL_DJ), ("Ti", FL_TI), ("Di", FL_DI),
+                 ("Bz", FL_BZ), ("AltB", FL_ALT)):
+    LIB["spec." + _nm] = E.LibFunc(
+        "spec." + _nm, (lambda I, v, _fn=_fn: _fn(_val(v))))
+
+
+@lib("torch.inference_mode", "torch.no_grad")
+def _torch_inference_mode(I, *a, **k):
+    return Opaque("torch-context")
+
+
+@lib("torch.from_numpy")
+def _torch_from_numpy(I, a):
+    # value preserving view of the array (dtype casts: numerics not modelled)
+    return a
+
+
+@lib("torch.get_default_dtype")
+def _torch_default_dtype(I):
+    return Opaque("torch-dtype")
+
+
+for _m in ("detach", "cpu", "numpy", "float", "double", "clone", "type",
+           "to"):
+    METHODS[("seq", _m)] = (lambda I, b: E.LibFunc(
+        "tensor.identity", lambda I2, *a, **k: b))
